@@ -122,26 +122,27 @@ type psClosure struct {
 }
 
 type PathSum struct {
-	cx        *Ctx
-	nid       int
-	closures  map[string]*psClosure
-	funcs     map[string]*ssa.Function
-	fresh     map[string][]string // fresh node term -> [key, value, expiresAt, refreshableAt, weight]
-	maxDepth  int
-	loopBound int
-	pathCap   int
-	steps     int
-	forks     int
-	silent    int
-	capped    bool
-	noInline  map[*ssa.Function]bool
-	inlineLoops map[*ssa.Function]bool
-	asEvents    map[*ssa.Function]string // extra per-run event functions (summarised callees)
-	inlinePkgs  map[string]bool          // additional packages whose functions are inlined
-	trackRanges bool                     // every map-range step becomes a RangeNext(map, element) event
-	trackLinks  bool                     // link getters become NodeRead events with their own result symbols (shape analysis)
-	roles     *psRoles
-	maxSeen   int
+	cx           *Ctx
+	nid          int
+	closures     map[string]*psClosure
+	funcs        map[string]*ssa.Function
+	fresh        map[string][]string // fresh node term -> [key, value, expiresAt, refreshableAt, weight]
+	maxDepth     int
+	loopBound    int
+	pathCap      int
+	steps        int
+	forks        int
+	silent       int
+	capped       bool
+	noInline     map[*ssa.Function]bool
+	inlineLoops  map[*ssa.Function]bool
+	asEvents     map[*ssa.Function]string // extra per-run event functions (summarised callees)
+	inlinePkgs   map[string]bool          // additional packages whose functions are inlined
+	alsoRelevant []string                 // additional substrings that make a branch condition a recorded predicate
+	trackRanges  bool                     // every map-range step becomes a RangeNext(map, element) event
+	trackLinks   bool                     // link getters become NodeRead events with their own result symbols (shape analysis)
+	roles        *psRoles
+	maxSeen      int
 }
 
 type psRoles struct {
@@ -306,6 +307,12 @@ func (ps *PathSum) load(s *psState, addr string, f *psFrame, t types.Type) strin
 				if _, ok := s.preds["IsNil("+loc[:i]+")"]; !ok && loc[:i] != "param:c" {
 					s.preds["IsNil("+loc[:i]+")"] = false
 				}
+			}
+		}
+		// the deletion handlers: a cache without a handler delivers nothing; the summaries describe the configured case
+		if i := strings.LastIndex(loc, "."); i >= 0 && (strings.HasPrefix(loc, "param:c.") || strings.HasPrefix(loc, "freevar:c.")) {
+			if fld := loc[i+1:]; fld == "onDeletion" || fld == "onAtomicDeletion" {
+				return "handler:" + fld
 			}
 		}
 		// configuration flags of the cache
@@ -576,7 +583,7 @@ func dropFrameCells(s *psState, id int, rets []string) {
 func (ps *PathSum) exec(s *psState, f *psFrame) []*psOutcome {
 	for {
 		ps.steps++
-		if ps.steps > 40_000_000 {
+		if ps.steps > 5_000_000 {
 			ps.capped = true
 			return nil
 		}
@@ -833,7 +840,7 @@ func (ps *PathSum) binop(f *psFrame, x *ssa.BinOp) string {
 			switch {
 			case o == "nil":
 				t = "true"
-			case strings.HasPrefix(o, "fresh") || strings.HasPrefix(o, "closure:") || strings.HasPrefix(o, "&") || strings.HasPrefix(o, "newcall") || strings.HasPrefix(o, "panicerr") || o == "panicval" || isMadeTerm(o):
+			case strings.HasPrefix(o, "fresh") || strings.HasPrefix(o, "closure:") || strings.HasPrefix(o, "&") || strings.HasPrefix(o, "newcall") || strings.HasPrefix(o, "panicerr") || o == "panicval" || isMadeTerm(o) || strings.HasPrefix(o, "handler:"):
 				t = "false"
 			default:
 				t = "IsNil(" + o + ")"
@@ -939,6 +946,11 @@ func (ps *PathSum) branch(s *psState, f *psFrame, x *ssa.If) []*psOutcome {
 		return ps.exec(s, f)
 	}
 	rel := relevantAtom(atom)
+	for _, sub := range ps.alsoRelevant {
+		if strings.Contains(atom, sub) {
+			rel = true
+		}
+	}
 	if rel {
 		ps.forks++
 	} else {
